@@ -189,6 +189,29 @@ pub fn run(ctx: &mut Ctx) {
             or.fail(format!("static key {n} not found by another spelling/representation"), format!("# case flat-oracle\nowned.rel static {} string {}", hex(n.as_bytes()), hex(lo.as_bytes())), format!("slookup:{n}"));
         }
     }
+    // partial_cmp = Some(cmp), Display = the stored string, &VarName -> &str: oracle only
+    {
+        let mut pool: Vec<String> = names.iter().take(40).cloned().collect();
+        for n in names.iter().take(20) { pool.push(n.to_ascii_lowercase()); }
+        pool.extend(["".to_string(), "x_caf\u{e9}".to_string(), "X_CAF\u{e9}".to_string(), "a".repeat(17), "A".repeat(16) + "b"]);
+        for a in &pool { for b in pool.iter().take(25) {
+            let (va, vb) = (VarName::new(a), VarName::new(b));
+            if va.partial_cmp(vb) != Some(va.cmp(vb)) { or.fail(format!("VarName partial_cmp != Some(cmp) for {a:?}, {b:?}"), "# case flat-oracle\n# partial_cmp".into(), "partial-cmp".into()); }
+            let (oa, ob) = (OwnedVarName::from(a.clone()), OwnedVarName::from(b.clone()));
+            if oa.partial_cmp(&ob) != Some(oa.cmp(&ob)) { or.fail(format!("OwnedVarName partial_cmp != Some(cmp) for {a:?}, {b:?}"), "# case flat-oracle\n# partial_cmp".into(), "partial-cmp-owned".into()); }
+            if (oa.cmp(&ob) == std::cmp::Ordering::Equal) != (oa == ob) { or.fail(format!("OwnedVarName cmp/eq disagree for {a:?}, {b:?}"), "# case flat-oracle\n# cmp-eq".into(), "cmp-eq-owned".into()); }
+        }
+            let va = VarName::new(a);
+            if va.to_string() != *a { or.fail(format!("VarName Display of {a:?} is {:?}", va.to_string()), "# case flat-oracle\n# display".into(), "display".into()); }
+            let s: &str = va.into(); if s != a { or.fail(format!("&VarName -> &str of {a:?} is {s:?}"), "# case flat-oracle\n# into-str".into(), "into-str".into()); }
+            let oa = OwnedVarName::from(a.clone());
+            if oa.to_string() != a.to_ascii_uppercase() { or.fail(format!("OwnedVarName Display of {a:?} is {:?}", oa.to_string()), "# case flat-oracle\n# display".into(), "display-owned".into()); }
+        }
+        for w in names.windows(2).take(60) { if let (Ok(x), Ok(y)) = (w[0].parse::<StaticVarName>(), w[1].parse::<StaticVarName>()) {
+            if x.partial_cmp(&y) != Some(x.cmp(&y)) { or.fail("StaticVarName partial_cmp != Some(cmp)".into(), "# case flat-oracle\n# partial_cmp".into(), "partial-cmp-static".into()); }
+            if x.to_string() != w[0] { or.fail(format!("StaticVarName Display of {} is {}", w[0], x), "# case flat-oracle\n# display".into(), "display-static".into()); } } }
+        or.eval_bulk(pool.len() as u64 * 25, pool.len() as u64 * 25, "api-corners");
+    }
     or.count_n("corr_ops", log.nops);
     log.finish();
     or.write(&ctx.dir);
